@@ -2,7 +2,7 @@
    FULL statement (NOT proved, open): for every accepted handler, signal argument values and world, emitting the signal performs the
    effects Sem.run_handler prescribes, in that order, and nothing else.  Decided per generated handler by executing the real output
    (vlib/c13.py); the theorems fix the reference semantics. *)
-From QV Require Import model.Base model.Lang model.Sem proofs.SemProofs.
+From QV Require Import model.Base model.Lang model.Sem proofs.SemProofs proofs.ScopeProofs proofs.FrameProofs.
 Open Scope Z_scope.
 
 (* effects are recorded in source order: the write of the first statement precedes the write of the second in the trace (most
@@ -36,6 +36,18 @@ Theorem C13_partial_handler_runs_in_parameter_env : forall names this st f args,
   end.
 Proof. exact run_handler_env. Qed.
 Print Assumptions C13_partial_handler_runs_in_parameter_env.
+
+(* effects accumulate in execution order, for EVERY statement: the trace only grows (nothing recorded is removed or reordered), and in a
+   block what the first statement does lies below what the following statements do *)
+Theorem C13_partial_trace_only_grows : forall names this s st e o st' e',
+  exec names this st e s = Def (o, st', e') -> exists t, trace st' = t ++ trace st.
+Proof. exact exec_trace_grows. Qed.
+Print Assumptions C13_partial_trace_only_grows.
+Theorem C13_partial_block_effects_in_source_order : forall names this s rest st e o st' e',
+  exec names this st e (SBlock (s :: rest)) = Def (o, st', e') ->
+  exists o1 st1 e1 t1 t2, exec names this st e s = Def (o1, st1, e1) /\ trace st1 = t1 ++ trace st /\ trace st' = t2 ++ t1 ++ trace st.
+Proof. exact block_effects_in_source_order. Qed.
+Print Assumptions C13_partial_block_effects_in_source_order.
 
 (* an early return stops the handler: nothing after it is performed *)
 Theorem C13_partial_return_stops : forall names this st s, run_handler names this st (CStmt (SBlock [SReturn None; s])) [] = Def st.
